@@ -443,6 +443,11 @@ K("C12/uci-list/push", ["C12", "C13", "C02"], "chain::verif_kani_b::c12_push_uci
   "for all UTF-8 strings of <= 6 bytes pushed onto the initial position: push_uci_list returns Ok or an error, never panics; on Ok exactly the whitespace-separated tokens were applied; on Err the error position is the failing token and the chain holds exactly the tokens before it (position unchanged if none)",
   bounded="strings of <= 6 bytes, initial position", timeout=5400, mem_gb=24, mem_est=8)
 
+K("C01/public-glue", ["C01", "C06", "C07", "C09", "C19"], "movegen::verif_kani_b::c01_public_generator_glue",
+  ["movegen::semilegal::gen_* / gen_*_into (macro)", "movegen::legal::gen_* (macro)", "movegen::has_legal_moves", "movegen::san_candidates", "movegen::san_pawn_capture_candidates", "movegen::UnsafeMoveList::push", "movegen::LegalFilter::push"],
+  "for ALL boards with one king each, with the MoveGenImpl methods imported as 'pushes its class' and Checker::is_legal as a free boolean: each semilegal::<g>_into runs method <g> instantiated for the side to move into the caller's sink; semilegal::<g> returns the same as a list; legal::<g> returns exactly that list filtered by the legality decision (real ArrayVec::retain); has_legal_moves is true iff the filtered refusing run of gen_for_has_legal_moves is refused; the SAN candidate wrappers run their method for the side to move through the legality filter",
+  assumes=GEN_ALL + ISLEGAL + ["C01/gen/dispatch"], timeout=2400, mem_gb=16)
+
 
 def by_id():
     return {o["id"]: o for o in OBS}
